@@ -17,7 +17,7 @@ RULE = ("Each case runs a real hio Server/ServerTls with an echo loop and two Cl
         "close with unread data (RST), client vanishing mid-handshake, client resetting its connection and at once reconnecting from the same port and dropping that handshake, server-side remoter closed. The thorough tier additionally "
         "sweeps every (errno, op, side, call index < 6, plain/TLS) combination once. Oracle: no service() call raises; the endpoint "
         "that met the fault is marked cutoff - the client right after the service() call in which it fired, on the server side the very remoter whose socket failed - (server-side handshake: aborted; client-side handshake: not connected and cutoff or "
-        "closed); the other connection's echo traffic completes within the drain bound, and (plain, server-side fault) if it had bytes waiting in the very service round of the fault it was read in that round. Non-trivial: the fault fired while payload "
+        "closed); the other connection's echo traffic completes within the drain bound, and (plain, server-side fault) if it had bytes waiting in the very service round of the fault it was read in that round. A peer reset may come right behind data the server has not read yet; a connection whose peer reset it is marked and stays in .ixes (dropping it unmarked, with what it had received, is what happens to unclassified errors only). Non-trivial: the fault fired while payload "
         "bytes or handshake records of that connection were in flight. Distinct: digest of (config, fault, executed actions).")
 COMPONENTS = dict(real=["hio.core.tcp.clienting.Client/ClientTls", "hio.core.tcp.serving.Server/ServerTls/Remoter/RemoterTls", "OpenSSL engine"],
                   stub=["kernel sockets (FakeSocket)", "SSLSocket glue (SimSSLSocket)"])
